@@ -7,6 +7,7 @@ import (
 	"io"
 	"math/rand"
 	"strings"
+	"sync"
 
 	jlib "github.com/jsightapi/jsight-schema-go-library"
 	jdoc "github.com/jsightapi/jsight-schema-go-library/formats/json"
@@ -157,6 +158,45 @@ func jsonCheck(b []byte, trailing bool) string {
 		}
 		return "OK"
 	})
+}
+
+// jsonCheckRace: n goroutines make the FIRST Check() call on ONE fresh document at the same time; every caller must get
+// what a sequential caller gets (the verdict of the property does not depend on who asks first). Returns the distinct
+// results that differ from the sequential one.
+func jsonCheckRace(b []byte, trailing bool, n int) (seq string, others []string) {
+	seq = jsonCheck(b, trailing)
+	var d jlib.Document
+	if trailing {
+		d = jdoc.New("d", b, jdoc.AllowTrailingNonSpaceCharacters())
+	} else {
+		d = jdoc.New("d", b)
+	}
+	res := make([]string, n)
+	var wg sync.WaitGroup
+	start := make(chan struct{})
+	for g := 0; g < n; g++ {
+		wg.Add(1)
+		go func(g int) {
+			defer wg.Done()
+			<-start
+			res[g] = vh.Recover(func() string {
+				if err := d.Check(); err != nil {
+					return perr(err)
+				}
+				return "OK"
+			})
+		}(g)
+	}
+	close(start)
+	wg.Wait()
+	seen := map[string]bool{}
+	for _, x := range res {
+		if x != seq && !seen[x] {
+			seen[x] = true
+			others = append(others, x)
+		}
+	}
+	return
 }
 
 func okBit(c string) string {
@@ -531,6 +571,35 @@ func init() {
 						emit([]byte(h[:k] + o + h[k:]))
 					}
 					rep.Stat("foreign_surroundings")
+				}
+			}
+		}
+		// first-use race: the verdict must not depend on which goroutine asks first (8 goroutines, one fresh document,
+		// all calling Check at once); malformed and well-formed texts, large enough that the scan takes a while
+		{
+			n := vh.Pick(400, 4000)
+			for i := 0; i < n; i++ {
+				genBudget = 200 + r.Intn(400)
+				txt := genWS(r) + genValue(r, 2+r.Intn(6), 2+r.Intn(8)) + genWS(r)
+				b := []byte(txt)
+				if i%2 == 0 { // malformed: truncated, or one byte damaged near the end
+					if len(b) > 2 && r.Intn(2) == 0 {
+						b = b[:len(b)-1-r.Intn(len(b)/2)]
+					} else {
+						b = append([]byte{}, b...)
+						b[len(b)-1-r.Intn((len(b)+1)/2)] = jsonAlphabet[r.Intn(len(jsonAlphabet))]
+					}
+				}
+				tr := r.Intn(2) == 0
+				seq, others := jsonCheckRace(b, tr, 8)
+				rep.Stat("first_check_race")
+				if seq == "OK" {
+					rep.Stat("first_check_race_wellformed")
+				}
+				rep.Case("race:"+string(b), true)
+				if len(others) > 0 {
+					rep.AddDiff(vh.Diff{Component: "C05-first-check-race", Input: fmt.Sprintf("%q trailing=%v: 8 goroutines call Check() on one fresh document at once", b, tr),
+						Impl: "some callers got: " + strings.Join(others, " / "), Model: "every caller gets what a sequential caller gets: " + seq})
 				}
 			}
 		}
